@@ -394,6 +394,7 @@ STATIC char const * _soxr_init(
     s->mult = multiplier, multiplier = 1;
     s->step.whole = (int64_t)(arbM * MULT32 + .5);
     s->pre_post = max(3, s->step.integer);
+    s->input_size = max(s->input_size, s->pre_post + 1);   /* Else no progress. */
     s->preload = s->pre = 1;
     s->out_in_ratio = MULT32 / (double)s->step.whole;
   }
